@@ -137,25 +137,34 @@ func ConvertRecordValueToJsonStructure(pathes []PathExpression, row []value.Prim
 		return nil, errors.New("field length does not match")
 	}
 
+	var err error
 	for i, path := range pathes {
-		structure = addPathValueToRowStructure(structure, path.(ObjectPath), row[i], fieldLen)
+		structure, err = addPathValueToRowStructure(structure, path.(ObjectPath), row[i], fieldLen)
+		if err != nil {
+			return nil, err
+		}
 	}
 
 	return structure, nil
 }
 
-func addPathValueToRowStructure(parent json.Structure, path ObjectPath, val value.Primary, fieldLen int) json.Structure {
+func addPathValueToRowStructure(parent json.Structure, path ObjectPath, val value.Primary, fieldLen int) (json.Structure, error) {
 	var obj json.Object
 	if parent == nil {
 		obj = json.NewObject(fieldLen)
+	} else if o, ok := parent.(json.Object); ok {
+		obj = o
 	} else {
-		obj = parent.(json.Object)
+		return nil, errors.New(fmt.Sprintf("field %q cannot be added to a value that is not an object", path.Name))
 	}
 
 	if path.Child == nil {
 		obj.Add(path.Name, ParseValueToStructure(val))
 	} else {
-		valueStructure := addPathValueToRowStructure(obj.Value(path.Name), path.Child.(ObjectPath), val, fieldLen)
+		valueStructure, err := addPathValueToRowStructure(obj.Value(path.Name), path.Child.(ObjectPath), val, fieldLen)
+		if err != nil {
+			return nil, err
+		}
 		if obj.Exists(path.Name) {
 			obj.Update(path.Name, valueStructure)
 		} else {
@@ -163,7 +172,7 @@ func addPathValueToRowStructure(parent json.Structure, path ObjectPath, val valu
 		}
 	}
 
-	return obj
+	return obj, nil
 }
 
 func ParseValueToStructure(val value.Primary) json.Structure {
